@@ -213,6 +213,14 @@ def submitField (jn : JidNorm) (frm : Form) (vals : Vals) (f : Field) : Option N
       let vs := match r.1 with | some v => valStrings f.typ v | none => f.values
       some (encodeField jn { f with values := vs })
 
+/-- the field a submission carries for `f` before it is written (`none`: left out) -/
+def submittedField (jn : JidNorm) (frm : Form) (vals : Vals) (f : Field) : Option Field :=
+  if f.typ = "fixed" then none
+  else
+    let r := get jn frm vals f.var
+    if !f.required && !r.2 then none
+    else some { f with values := match r.1 with | some v => valStrings f.typ v | none => f.values }
+
 def headKids (frm : Form) : List Node :=
   (if frm.title = "" then [] else [leaf ns "title" (normTitle frm.title)])
     ++ (nonEmptyLines frm.instructions).map (leaf ns "instructions")
